@@ -67,7 +67,11 @@ class P:
                  ("bin", "<~", ("ref", "v"), ("lit", "3")),
                  # assignment TARGETS that are context functions: the read of the target is a handler invocation like any other
                  ("bin", "=", ("ref", "f0"), ("lit", "1")), ("bin", "+=", ("ref", "f0"), ("lit", "1")), ("bin", "<~", ("ref", "f1"), ("lit", "3")),
-                 ("bin", "=", ("ref", "f0"), ("ref", "f1")), ("bin", "=", ("ref", "f0"), ("call", "g0", [("ref", "f0")]))]
+                 ("bin", "=", ("ref", "f0"), ("ref", "f1")), ("bin", "=", ("ref", "f0"), ("call", "g0", [("ref", "f0")])),
+                 # setters whose handler fails (a built-in one on a non-number, a scripted one by injection) on targets of every type
+                 ("bin", "+=", ("ref", "s"), ("lit", "1")), ("bin", "-=", ("ref", "l"), ("lit", "1")), ("bin", "*=", ("ref", "m"), ("lit", "2")),
+                 ("bin", "<<=", ("ref", "s"), ("lit", "1")), ("bin", "<~", ("ref", "s"), ("lit", "3")), ("bin", "<~", ("ref", "l"), ("ref", "f0")),
+                 ("bin", "<~", ("ref", "m"), ("lit", "3")), ("bin", "+=", ("ref", "l"), ("ref", "f0"))]
         progs_list = [[t] for t in small] + [[("bin", "=", ("ref", "w"), ("lit", "9")), t, ("bin", "=", ("ref", "v"), ("lit", "8"))] for t in small]
         for _ in range(ntrees):
             progs_list.append([tree_with_ops(rng, rng.choice([2, 3])) for _ in range(rng.choice([1, 2, 3]))])
@@ -75,9 +79,13 @@ class P:
             handlers = {}
             for hid in list(HIDS.values()) + list(GLOBALS.values()) + [22, 23, 24, 25]:
                 handlers[hid] = ("count", [("ret", rng.choice(RET)) for _ in range(rng.randint(1, 3))])
-            ctx = {"v": ("var", n(4))}
+            # (variables of every type: a failing assignment must leave a string, a list or a map exactly as it was)
+            ctx = {"v": ("var", n(4)), "s": ("var", ("s", "abc")), "l": ("var", ("l", [n(1), n(2)])), "m": ("var", ("m", [(n(1), n(2))]))}
             for name, hid in HIDS.items(): ctx[name] = ("func", hid)
             cls, val, fctx, log = run2(stmts, ctx, handlers)
+            if cls == "ERR" and not log:
+                # the program fails by itself (a built-in handler rejects its operands) before any scripted handler runs
+                items.append(self.mk(stmts, ctx, handlers, PT, ("fail", -1)))
             ks = list(range(len(log)))
             if tier == "quick" and len(ks) > 3: ks = rng.sample(ks, 3)
             for k in ks:
